@@ -119,3 +119,41 @@ def contentOK (env : NsEnv) (d : Option Str) : Content → Bool
     elemNameOK q && attrs.all (attrOK env d) && contentOK env d kids && contentOK env d rest
 
 end Spec.Hyps
+
+namespace Spec.Hyps
+open Py Xs.Ns Xs.Sax Xs.Writer Spec.XmlNs Spec.EventTree
+
+/-! ### structure of the event sequence -/
+
+/-- encoding this atom cannot create a prefix: a QName atom has no namespace -/
+def atomNoNs : Atom → Bool
+  | .qname t => (match clark t with
+    | some (none, _) => true
+    | _ => false)
+  | _ => true
+
+def valNoNs : Val → Bool
+  | .none => true
+  | .atom a => atomNoNs a
+  | .list xs => xs.all atomNoNs
+
+/-- the value may encode to a non-empty string -/
+def mayBeText : Val → Bool
+  | .none => false
+  | .list [] => false
+  | .atom (.str s) => !s.isEmpty
+  | _ => true
+
+/-- Structural conditions on a forest.  `first`: the enclosing element's start
+tag is still pending (nothing of its content seen yet); `afterData`: the
+previous event was a DATA event.  A DATA event that is not the first content
+event must not carry a QName with a namespace (its prefix would be created
+after the declarations were written) and must not carry text directly after
+another DATA event (it would be written after the end tag). -/
+def shapeOK : Bool → Bool → Content → Bool
+  | _, _, .nil => true
+  | first, afterData, .data v rest =>
+    (first || (valNoNs v && !(afterData && mayBeText v))) && shapeOK false true rest
+  | _, _, .child _ _ kids rest => shapeOK true false kids && shapeOK false false rest
+
+end Spec.Hyps
